@@ -1,26 +1,350 @@
 package main
 
-// Contracts kept as structured comments in the overlay files (see DESIGN.md 2.2).
+// Contracts.
+//
+// A contract of function F is a wrapper function W in the overlay files, marked
+// `//verif:contract <F>`, with F's parameters (receiver first) and results:
+//
+//	func contract_X(recv, params...) (results...) {
+//		verifRequires(pre)            // pre-state
+//		n0 := len(*recv)              // "old" values are ordinary locals
+//		results = recv.F(params...)   // the real call
+//		verifEnsures(post, "label")   // post-state; verifAny() gives ∀-variables
+//		return
+//	}
+//
+// Verifying W (it is a lemma function like any other) proves the contract: requires
+// are assumed, the real body is executed, ensures become obligations (∀-variables
+// are skolem constants).  At a call site of F in other code, when the configuration
+// says so, W is executed instead of F with the inner call replaced by
+// `havoc(assigns(F))`: requires become obligations of the caller, ensures become
+// hypotheses (∀-variables are bound by a quantifier).  assigns(F) is computed from
+// F's body (kinds written; objects that exist before the call keep their contents
+// in kinds F only writes in objects it allocates).
+//
+// Loop invariants are functions marked `//verif:invariant <F> loop<N>` returning bool;
+// their parameters are bound by name to the loop's variables / F's parameters.
 
 import (
+	"fmt"
+	"go/types"
+	"sort"
+	"strings"
+
 	"golang.org/x/tools/go/ssa"
 )
 
 type LoopInv struct {
 	Name string
-	Fn   *ssa.Function // predicate function generated from the comment
+	Fn   *ssa.Function
 }
 
 type Summary struct {
-	Name string
+	Name    string
+	Wrapper *ssa.Function
 }
 
-func (ex *Exec) checkInv(f *Frame, act *loopAct, inv *LoopInv, class string, reach *Term, get func(*ssa.Phi) Value) {
+type contractMode struct {
+	target string // fnName of the contracted function
+	use    bool   // true: wrapper stands in for the function at a call site
+	bound  []*Term
+	// use mode: result and reach of the (havoced) inner call; the wrapper returns exactly
+	// these, whatever branching its specification expressions did afterwards
+	called  bool
+	callRes Value
+	callOK  *Term
 }
 
-func (ex *Exec) assumeInv(f *Frame, act *loopAct, inv *LoopInv, reach *Term, get func(*ssa.Phi) Value) {
+type modSet struct {
+	kinds  map[string]bool   // kind -> written
+	full   map[string]bool   // kind -> may be written in pre-existing objects
+	params map[string]string // "<param index>|<suffix>" -> callee-side kind: cells written through a pointer parameter
+}
+
+func (P *Program) loadContractDirectives() {
+	P.modSets = map[string]*modSet{}
+	for name, ds := range P.directives {
+		for _, d := range ds {
+			f := strings.Fields(d)
+			if len(f) < 2 {
+				continue
+			}
+			var w *ssa.Function
+			for path, sp := range P.spkgs {
+				if P.isRepoPkg(path) {
+					if fn := sp.Func(name); fn != nil {
+						w = fn
+					}
+				}
+			}
+			if w == nil {
+				continue
+			}
+			switch f[0] {
+			case "contract":
+				target := strings.Join(f[1:], " ")
+				P.summaries[target] = &Summary{Name: target, Wrapper: w}
+			case "invariant":
+				if len(f) >= 3 {
+					key := f[1] + "#" + f[2]
+					P.loopInvs[key] = append(P.loopInvs[key], &LoopInv{Name: name, Fn: w})
+				}
+			}
+		}
+	}
+}
+
+func (ex *Exec) topMode() *contractMode {
+	if len(ex.modes) == 0 {
+		return nil
+	}
+	return ex.modes[len(ex.modes)-1]
 }
 
 func (ex *Exec) applySummary(f *Frame, call *ssa.Call, fn *ssa.Function, sm *Summary, args []Value, reach *Term) (Value, *Term) {
-	return ex.callFn(fn, args, reach)
+	ex.modes = append(ex.modes, &contractMode{target: fnName(fn), use: true})
+	defer func() { ex.modes = ex.modes[:len(ex.modes)-1] }()
+	ex.summariesUsed[fnName(fn)] = true
+	m := ex.modes[len(ex.modes)-1]
+	v, ok := ex.callFn(sm.Wrapper, args, reach)
+	if m.called {
+		return m.callRes, m.callOK
+	}
+	return v, ok
+}
+
+// havocCall replaces a call of fn by its frame: everything it may assign becomes
+// unknown, the result is unconstrained (but well-typed).
+func (ex *Exec) havocCall(fn *ssa.Function, args []Value, reach *Term) (Value, *Term) {
+	ms := ex.P.modSetOf(fn)
+	water := ex.ctr()
+	c := Fresh("ctr.call."+fn.Name(), SInt, water.lo, nil)
+	ex.assumeGlobal(Ge(c, water))
+	var kinds []string
+	for k := range ms.kinds {
+		kinds = append(kinds, k)
+	}
+	sort.Strings(kinds)
+	for _, kn := range kinds {
+		k := ex.mem.kinds[kn]
+		if k == nil {
+			k = ex.P.kindTemplate(ex, kn)
+			if k == nil {
+				continue
+			}
+		}
+		var w *Term
+		if !ms.full[kn] {
+			w = water
+		}
+		ex.mem.Havoc(k, reach, w, c)
+		ex.noteWrite(k, reach, c, Int(0)) // the enclosing loop's write set includes it
+		if ms.full[kn] {
+			ex.noteWriteOld(k)
+		}
+	}
+	// cells written through pointer parameters: exactly those cells of the actual argument
+	var pws []string
+	for pw := range ms.params {
+		pws = append(pws, pw)
+	}
+	sort.Strings(pws)
+	for _, pw := range pws {
+		var pi int
+		var suffix string
+		if i := strings.Index(pw, "|"); i > 0 {
+			fmt.Sscanf(pw[:i], "%d", &pi)
+			suffix = pw[i+1:]
+		}
+		if pi >= len(args) {
+			continue
+		}
+		actual, ok := args[pi].(PtrV)
+		if !ok {
+			continue
+		}
+		tmpl, ok := ex.P.kindTemplates[ms.params[pw]]
+		if !ok {
+			continue
+		}
+		k := ex.mem.kind(ex.ptrBase(actual)+suffix, tmpl.sort, tmpl.lo, tmpl.hi, tmpl.isRef)
+		v := Fresh("mod."+fn.Name()+suffix, tmpl.sort, tmpl.lo, tmpl.hi)
+		if tmpl.isRef {
+			ex.assumeGlobal(Le(v, c))
+		}
+		ex.mem.Store(k, reach, actual.Ref, ex.idx(actual), v)
+	}
+	ex.ctrBase, ex.ctrOff = c, 0
+	res := ex.havocResult(fn, reach)
+	// error results are nil or a proper error object
+	rt := resultType(fn)
+	constrain := func(t types.Type, v Value) {
+		if iv, ok := v.(IfaceV); ok && t.String() == "error" {
+			ex.assumeGlobal(Or(Eq(iv.Tag, Int(0)), Eq(iv.Tag, ex.errTag())))
+		}
+	}
+	if tt, ok := rt.(*types.Tuple); ok {
+		for i := 0; i < tt.Len(); i++ {
+			constrain(tt.At(i).Type(), res.(TupleV)[i])
+		}
+	} else if rt != nil {
+		constrain(rt, res)
+	}
+	if m := ex.topMode(); m != nil && m.use {
+		m.called, m.callRes, m.callOK = true, res, reach
+	}
+	return res, reach
+}
+
+// noteWriteOld marks kind k as written in pre-existing objects for every enclosing scope.
+func (ex *Exec) noteWriteOld(k *kindInfo) {
+	for _, l := range ex.loops {
+		ex.cfg.fullHavoc[l.key+"|"+k.name] = true
+	}
+}
+
+// kindTemplate recreates a kind (sort, range) known from the mod-set computation.
+func (P *Program) kindTemplate(ex *Exec, name string) *kindInfo {
+	t, ok := P.kindTemplates[name]
+	if !ok {
+		return nil
+	}
+	return ex.mem.kind(name, t.sort, t.lo, t.hi, t.isRef)
+}
+
+// modSetOf computes (once) which kinds fn may write, and which of them only in
+// objects fn itself allocates.
+func (P *Program) modSetOf(fn *ssa.Function) *modSet {
+	key := fnName(fn)
+	if ms, ok := P.modSets[key]; ok {
+		return ms
+	}
+	cfg := newRunCfg()
+	cfg.fnScope = "fn:" + key
+	// the function's own callees may use their contracts
+	for n := range P.summaries {
+		if n != key {
+			cfg.useSummary[n] = true
+		}
+	}
+	P.modSets[key] = &modSet{kinds: map[string]bool{}, full: map[string]bool{}} // guards recursion
+	r := P.VerifyFunction(fn, cfg, VerifyOpts{TimeoutMs: 4000, Workers: 4, OptionalOnly: true})
+	ms := &modSet{kinds: map[string]bool{}, full: map[string]bool{}, params: cfg.paramWrites}
+	if P.kindTemplates == nil {
+		P.kindTemplates = map[string]kindInfo{}
+	}
+	for _, kn := range cfg.paramWrites {
+		if ki := r.ex.mem.kinds[kn]; ki != nil {
+			P.kindTemplates[kn] = kindInfo{name: kn, sort: ki.sort, lo: ki.lo, hi: ki.hi, isRef: ki.isRef}
+		}
+	}
+	for k := range cfg.modKinds[cfg.fnScope] {
+		ms.kinds[k] = true
+		if cfg.fullHavoc[cfg.fnScope+"|"+k] {
+			ms.full[k] = true
+		}
+		if ki := r.ex.mem.kinds[k]; ki != nil {
+			if P.kindTemplates == nil {
+				P.kindTemplates = map[string]kindInfo{}
+			}
+			P.kindTemplates[k] = kindInfo{name: k, sort: ki.sort, lo: ki.lo, hi: ki.hi, isRef: ki.isRef}
+		}
+	}
+	P.modSets[key] = ms
+	return ms
+}
+
+func contractIntrinsics(tab map[string]func(ex *Exec, f *Frame, call *ssa.Call, args []Value, reach *Term) (Value, *Term)) {
+	tab["verifRequires"] = func(ex *Exec, f *Frame, call *ssa.Call, args []Value, reach *Term) (Value, *Term) {
+		c := args[0].(*Term)
+		if m := ex.topMode(); m != nil && m.use {
+			ex.oblige("pre", m.target+":"+ex.exprText(call.Pos(), "call"), reach, c)
+			return nil, reach
+		}
+		ex.assume(reach, c)
+		return nil, And(reach, c)
+	}
+	tab["verifEnsures"] = func(ex *Exec, f *Frame, call *ssa.Call, args []Value, reach *Term) (Value, *Term) {
+		c := args[0].(*Term)
+		label := "post"
+		if s, ok := args[1].(StrV); ok && s.Lit != nil {
+			label = *s.Lit
+		}
+		if m := ex.topMode(); m != nil && m.use {
+			ex.assumeGlobal(Forall(Implies(reach, c)))
+			return nil, reach
+		}
+		ex.oblige("post", label, reach, c)
+		return nil, reach
+	}
+	tab["verifAny"] = func(ex *Exec, f *Frame, call *ssa.Call, args []Value, reach *Term) (Value, *Term) {
+		ik, _ := intKindOf(call.Type())
+		if m := ex.topMode(); m != nil && m.use || ex.bindAny {
+			return BoundVar("any", ik.lo(), ik.hi()), reach
+		}
+		v := Fresh("any", SInt, ik.lo(), ik.hi())
+		ex.skolems = append(ex.skolems, v)
+		return v, reach
+	}
+}
+
+// ---------- loop invariants given as functions ----------
+
+// invArgs binds the invariant function's parameters by name: a loop variable (phi
+// comment), a parameter of the enclosing function, or <param>0 for its entry value.
+func (ex *Exec) invArgs(f *Frame, act *loopAct, inv *LoopInv, get func(*ssa.Phi) Value) ([]Value, bool) {
+	var out []Value
+	for _, p := range inv.Fn.Params {
+		name := p.Name()
+		var v Value
+		found := false
+		for phi := range act.headVals {
+			if phi.Comment == name {
+				v, found = get(phi), true
+				break
+			}
+		}
+		if !found {
+			for _, fp := range f.fn.Params {
+				if fp.Name() == name || fp.Name()+"0" == name {
+					v, found = f.vals[fp], true
+					break
+				}
+			}
+		}
+		if !found {
+			ex.unsupported(fmt.Sprintf("invariant %s: cannot bind parameter %s in %s", inv.Name, name, fnName(f.fn)))
+			return nil, false
+		}
+		out = append(out, v)
+	}
+	return out, true
+}
+
+func (ex *Exec) evalInv(f *Frame, act *loopAct, inv *LoopInv, reach *Term, get func(*ssa.Phi) Value, bind bool) *Term {
+	args, ok := ex.invArgs(f, act, inv, get)
+	if !ok {
+		return True()
+	}
+	old := ex.bindAny
+	ex.bindAny = bind
+	ex.specDepth++
+	v, _ := ex.callFn(inv.Fn, args, reach)
+	ex.specDepth--
+	ex.bindAny = old
+	t, _ := v.(*Term)
+	if t == nil {
+		return True()
+	}
+	return t
+}
+
+func (ex *Exec) checkInv(f *Frame, act *loopAct, inv *LoopInv, class string, reach *Term, get func(*ssa.Phi) Value) {
+	c := ex.evalInv(f, act, inv, reach, get, false)
+	ex.oblige(class, act.key+":"+inv.Name, reach, c)
+}
+
+func (ex *Exec) assumeInv(f *Frame, act *loopAct, inv *LoopInv, reach *Term, get func(*ssa.Phi) Value) {
+	c := ex.evalInv(f, act, inv, reach, get, true)
+	ex.assumeGlobal(Forall(Implies(reach, c)))
 }
